@@ -673,7 +673,7 @@ impl BufferedDatabaseWriter {
 
                 WriteMessage::Edges(edges, _, _) => {
                     for edge in edges {
-                        if let Err(e) = edge.write(conn) {
+                        if let Err(e) = edge.write_unless_deleted(conn) {
                             conn.execute("ROLLBACK", [])?;
                             return Err(e);
                         }
